@@ -125,6 +125,8 @@ impl PagedWriter {
                 && (old(self).offset + n == 1020 ==> final(self).offset == 0)
                 && final(self).cursor() == old(self).cursor() + n
                 && final(self).stream().len() >= old(self).stream().len()
+                // overwriting inside the existing stream does not grow it
+                && (old(self).cursor() + n <= old(self).stream().len() ==> final(self).stream().len() == old(self).stream().len())
                 // frame over the whole view: written range = buf, everything else unchanged, new page zero
                 && (forall|i: int| 0 <= i < final(self).stream().len() ==> #[trigger] final(self).stream()[i] ==
                         (if old(self).cursor() <= i < old(self).cursor() + n { buf@[i - old(self).cursor()] }
@@ -189,6 +191,7 @@ impl PagedWriter {
                 && final(self).dl() <= old(self).dl() + 1024 * ((old(self).offset + buf@.len()) / 1020)
                 && final(self).dl() >= old(self).dl()
                 && final(self).offset == (old(self).offset + buf@.len()) % 1020
+                && (old(self).cursor() + buf@.len() <= old(self).stream().len() ==> final(self).stream().len() == old(self).stream().len())
                 && final(self).stream().len() >= old(self).stream().len()
                 && (forall|i: int| 0 <= i < final(self).stream().len() ==> #[trigger] final(self).stream()[i] ==
                         (if old(self).cursor() <= i < old(self).cursor() + buf@.len() { buf@[i - old(self).cursor()] }
@@ -203,6 +206,7 @@ impl PagedWriter {
                 self.no_new_fault(old(self)),
                 self.dl() <= old(self).dl() + 1024 * ((old(self).offset + done) / 1020), self.dl() >= old(self).dl(),
                 self.offset == (old(self).offset + done) % 1020,
+                old(self).cursor() + done <= old(self).stream().len() ==> self.stream().len() == old(self).stream().len(),
                 self.cursor() == old(self).cursor() + done,
                 self.stream().len() >= old(self).stream().len(),
                 forall|i: int| 0 <= i < self.stream().len() ==> #[trigger] self.stream()[i] ==
@@ -359,6 +363,8 @@ pub open spec fn app_seq(os: Seq<u8>, oc: int, ns: Seq<u8>, nc: int, bytes: Seq<
     &&& nc == oc + bytes.len()
     &&& ns.len() >= os.len()
     &&& nc <= ns.len()
+    // overwriting inside the existing stream does not grow it
+    &&& (oc + bytes.len() <= os.len() ==> ns.len() == os.len())
     &&& forall|i: int| 0 <= i < ns.len() ==> #[trigger] ns[i] ==
             (if oc <= i < oc + bytes.len() { bytes[i - oc] } else if i < os.len() { os[i] } else { 0u8 })
 }
@@ -370,6 +376,7 @@ pub open spec fn appended(o: PagedWriter, n: PagedWriter, bytes: Seq<u8>) -> boo
 pub proof fn lemma_appended_content(o: PagedWriter, n: PagedWriter, bytes: Seq<u8>)
     requires appended(o, n, bytes)
     ensures n.stream().len() >= o.stream().len(), n.cursor() <= n.stream().len(),
+        o.cursor() + bytes.len() <= o.stream().len() ==> n.stream().len() == o.stream().len(),
         forall|i: int| 0 <= i < n.stream().len() ==> #[trigger] n.stream()[i] ==
             (if o.cursor() <= i < o.cursor() + bytes.len() { bytes[i - o.cursor()] } else if i < o.stream().len() { o.stream()[i] } else { 0u8 })
 { reveal(app_seq); }
